@@ -29,7 +29,10 @@ func genModelCase(r vlib.Rnd, plain bool) (*vlib.Case, *mdl.Doc, *mdl.Rendered) 
 // genModelCaseT: with transform set, some renderings move directives into MACRO + PASTE and / or INCLUDE files (the
 // expected catalog is the model's, whatever the project structure).
 func genModelCaseT(r vlib.Rnd, plain, transform bool) (*vlib.Case, *mdl.Doc, *mdl.Rendered) {
-	doc := mdl.Gen(r)
+	return genModelCaseOf(r, mdl.Gen(r), plain, transform)
+}
+
+func genModelCaseOf(r vlib.Rnd, doc *mdl.Doc, plain, transform bool) (*vlib.Case, *mdl.Doc, *mdl.Rendered) {
 	var lay *mdl.Layout
 	opts := mdl.TreeOpts{R: r, Plain: plain}
 	if plain {
@@ -144,8 +147,19 @@ var c02Model = &vlib.Check{
 	},
 }
 
+// c02PathSharing: small models of resources on nested paths that share path variables (mdl.GenPathSharing).
+var c02PathSharing = &vlib.Check{
+	Prop: "C02", Name: "path-sharing", Quick: 1500, Thorough: 60000,
+	Oracle: c02Oracle, Classify: c02Classify,
+	Gen: func(t *rapid.T) *vlib.Case {
+		r := vlib.RapidRnd{T: t}
+		c, _, _ := genModelCaseOf(r, mdl.GenPathSharing(r), vlib.Chance(r, 1, 4), true)
+		return c
+	},
+}
+
 func init() {
-	vlib.Register(c02Model)
+	vlib.Register(c02Model, c02PathSharing)
 	genModelStructured = func(r vlib.Rnd) *vlib.Project {
 		c, _, _ := genModelCaseT(r, false, true)
 		return c.Project
@@ -158,4 +172,5 @@ func init() {
 
 func TestC02(t *testing.T) {
 	t.Run("model", c02Model.Run)
+	t.Run("path-sharing", c02PathSharing.Run)
 }
